@@ -245,7 +245,9 @@ let handle toks =
   | ["dec"; kind; h] ->
       let b = bytes_of_hex h in
       (match kind with
-       | "c" | "r" -> dec_result (bw_set_bytes b false)
+       | "c" -> dec_result (bw_set_bytes b false)
+       | "r" -> (match read_point (reader_of_spec "-" b) with
+                 | Inl (p, _) -> dec_result (Inl p) | Inr _ -> "ERR")
        | "x" -> dec_result (bw_set_bytes b true)
        | "u" -> dec_result (bw_set_bytes_uncompressed true b false)
        | "t" -> dec_result (bw_set_bytes_uncompressed true b true)
